@@ -16,13 +16,14 @@ THEOREMS = [
     ("EG.props.C15", "C15_refuted_lowqos_return"),
     ("EG.props.C15", "C15_refuted_overlap_last_qos"),
 ]
-_FILES = ["harness/mqttproxy/zz_verif_c15_common_test.go", "harness/mqttproxy/zz_verif_c15_test.go"]
+_FILES = ["harness/mqttproxy/zz_verif_c15_common_test.go", "harness/mqttproxy/zz_verif_c15_test.go",
+          "harness/mqttproxy/zz_verif_c15_gen_test.go"]
 HARNESSES = [
     dict(name="mqtt", pkg="pkg/object/mqttproxy", files=_FILES, run="TestVerifC15",
-         groups=["fan", "sess", "cpub"], timeout=420),
+         groups=["fan", "sess", "cpub", "gen"], timeout=420),
 ]
-GROUPS = {"fan": "(check_fan pinned)", "sess": "check_sess", "cpub": "check_cpub"}
-EXPLAIN = {"fan": "(explain_fan pinned)", "sess": "explain_sess", "cpub": "explain_cpub"}
+GROUPS = {"fan": "(check_fan pinned)", "sess": "check_sess", "cpub": "check_cpub", "gen": "check_gen"}
+EXPLAIN = {"fan": "(explain_fan pinned)", "sess": "explain_sess", "cpub": "explain_cpub", "gen": "explain_gen"}
 CASES = {"quick": 400, "thorough": 4000}
 RULE = ("cases: fan = populations of 2-5 raw clients (1-3 subscriptions each over 14 literal/+/# filters, QoS 0/1/2, some "
         "unregistered by the admin endpoint, some unsubscribing or disconnecting before the publish, nested filters below a node whose only subscriber leaves) x 1-3 HTTP publishes (QoS 0/1, rarely 2) on a real loopback broker; "
@@ -38,6 +39,8 @@ TRUSTED_BASE = [
     "filter/topic matching is the declarative MQTT matcher of EG.model.Topic (C14), independent of the code; the real TopicManager's "
     "single-subscription verdict is only cross-checked against it",
     "visit order of Go maps is not controllable: correspondence is existential over all visit orders / last-visited choices",
+    "group gen (MQTTProxy Init/Inherit behind a real admin API server, publish through the registered route) has no Coq model: "
+    "only the delivery clause is checked on the observations",
     "the client publish limiter is C09's model (coq/model/RL.v) at elapsed time 0 (period chosen longer than the run)",
     "quiescence of the broker is decided from goroutine dumps (all broker goroutines parked) and PINGREQ/PINGRESP barriers",
 ]
@@ -122,6 +125,11 @@ def encode(c):
         return Rec(cc_pipe=B(i["pipe"]), cc_req=Z(i["requestRate"]), cc_bytes=Z(i["bytesRate"]), cc_period=Z(1000000),
                    cc_pubs=L(ps), cc_calls=L([Z(x) for x in calls]), cc_pubacks=L([Z(x) for x in o.get("pubacks") or []]),
                    cc_eof=B(o.get("end") == "eof"), cc_bad=B(bool(o.get("bad")) or o.get("end") not in ("ok", "eof")))
+    if g == "gen":
+        return Rec(gc_subqos=Z(i["subqos"]),
+                   gc_pubs=L([T(Z(p["gen"]), Z(p["qos"]), B(p["delivered"]), Z(p["status"])) for p in o.get("pubs") or []]),
+                   gc_expected=Nat((i["updates"] + 1) * len(i.get("qos") or [])),
+                   gc_bad=B(bool(o.get("bad"))))
     raise ValueError(g)
 
 
